@@ -1,3 +1,4 @@
+// FAMILY: C45
 //! C45: gathered tables carry every column the statement reads.
 //!
 //! One case = one sqlgen statement that takes the GATHER path (`plan_distributed` refuses it), over a multi-table
